@@ -121,6 +121,9 @@ package file
 //@ ensures no-load: loads == old(loads)
 //@ ensures substrate-preserved: err == nil ==> result != nil && (typeis(result, "*file.singleNodeFile") || typeis(result, "*file.shardNodeFile")) && fileSubstrate(result) == substrate
 //@ ensures err != nil ==> result == nil
+// A node that has links is read through its links, whatever else it carries (a dag-pb file node may
+// hold inline data as well): only a node without links is served from its own Data field.
+//@ at return assert a-node-with-links-is-read-through-them: err == nil && nodeLen(links) != 0 ==> typeis(result, "*file.shardNodeFile")
 //@ assigns nothing
 
 // C06: the preloading constructor reads the whole file through its reader, so every block a full
